@@ -733,6 +733,8 @@ impl MqttClientImpl {
             OperationOptions::Shutdown() => {
                 debug!("Updating desired state to Shutdown");
                 self.protocol_state.reset(&current_time);
+                // the reset discarded any DISCONNECT an earlier stop request was waiting on
+                self.desired_stop_options = None;
                 self.desired_state = ClientImplState::Shutdown;
             }
             OperationOptions::AddListener(id, listener) => {
